@@ -429,13 +429,13 @@ impl StaticMetadata {
         for ni in named_instances.iter() {
             let instance_name = ni.name.as_str();
             if ni.location == default_instance_location
-                && names
-                    .iter()
-                    .find_map(|(key, string)| (*string == instance_name).then_some(key.name_id))
-                    .is_some_and(|name_id| {
-                        name_id == NameId::SUBFAMILY_NAME
-                            || name_id == NameId::TYPOGRAPHIC_SUBFAMILY_NAME
-                    })
+                // `names` is a HashMap and the same string may be held by several ids (e.g. family
+                // and subfamily both "Regular"): look at all of them, not at whichever comes first
+                && names.iter().any(|(key, string)| {
+                    *string == instance_name
+                        && (key.name_id == NameId::SUBFAMILY_NAME
+                            || key.name_id == NameId::TYPOGRAPHIC_SUBFAMILY_NAME)
+                })
             {
                 log::debug!(
                     "Reuse existing subfamily name '{instance_name}' for default instance at {default_instance_location:?}",
